@@ -23,10 +23,25 @@ CLAIMED = {
              'c06_blocking_terminates / c06_blocking_write_returns — same conclusion as (a) for every schedule that is weakly fair and '
              'strongly fair for lock acquisition (LockFair: a lock / relock step enabled infinitely often is eventually taken); '
              'c06_blocking_some_thread_ready (in every non-terminal state some thread can make progress). Generic rule: '
-             'Fair.fair_termination_sf / Fair.fair_termination (Lemmas/FairTermination.lean). Partial: the multi-producer sequencer is '
-             'not modelled for liveness — its runs are judged by the oracle on the implementation events; known finding F11 (a sequence '
-             'stranded by out-of-order publication makes later write()/drain() spin for ever). Fairness of the real OS scheduler / '
-             'std::sync::Mutex, timing and spurious condvar wake-ups are not modelled.',
+             'Fair.fair_termination_sf / Fair.fair_termination (Lemmas/FairTermination.lean). Multi-producer sequencer '
+             '(Model/RingMulti.lean, ring sizes 2^k, Lemmas/RingMultiLive*.lean): (d) any number of writer threads, both '
+             'strategies, every schedule (MReachableWF): c06_multi_no_deadlock (some thread always has a step enabled in the sense of '
+             'RingMulti.enabledM), c06_multi_mutual_exclusion (handlers, writer threads inside signal() and the draining thread own '
+             'the mutex exactly when between lock and unlock; at most one of them), c06_multi_no_lost_wakeup (a parked handler '
+             'whose condition holds or is_done is set has been notified, or the draining thread is at dLock/dNotify/eLock/eNotify, '
+             'or a writer is between its CAS on the cursor and its notify_all, or another handler is at sLock/sNotify), '
+             'c06_multi_wait_conditions_stable. (e) ONE writer thread, batches 1<=b<N (exactly what has_capacity needs: '
+             'N > (hw - min) + count), every topology: c06_multi_single_writer_spin_terminates (every weakly fair schedule of '
+             'writer, draining thread and handlers reaches the state where all write calls and drain returned and every handler '
+             'exited), c06_multi_single_writer_blocking_terminates (weak fairness + LockFairM), ..._write_returns (claims = '
+             'batches, cursor = sum, everything written), c06_multi_single_writer_zero_events_drains, '
+             'c06_multi_single_writer_some_thread_ready. (f) any number of writers, conditional: '
+             'c06_multi_drain_terminates_when_released(_blocking) — from every reachable state in which all writers are done and '
+             'cursor = high watermark (nothing stranded) every fair schedule of the draining thread and the handlers terminates; '
+             'this isolates the defect in the release protocol. Partial: with two or more writer threads unconditional termination '
+             'is false — known finding F11 (a sequence stranded by out-of-order or overlapping publication, F7/F13, makes later '
+             'write()/drain() spin for ever); such runs are judged by the oracle on the implementation events. Fairness of the '
+             'real OS scheduler / std::sync::Mutex, timing and spurious condvar wake-ups are not modelled.',
         note='Trusted: as C04, plus the fairness assumptions (weak fairness; for the blocking strategy strong fairness of lock '
              'acquisition) — assumptions about the OS scheduler and std::sync::Mutex, not facts about the code; the deterministic '
              'scheduler classifies a run as deadlock when no managed thread is enabled and as budget when the step budget passes '
